@@ -13,3 +13,14 @@ func F4(api string, d int) (r p1.Result) {
 	r, p1.Lines[3] = p3.F3(api, d), p1.Here()
 	return r
 }
+
+// Deep calls F4 below n more frames.
+//
+//go:noinline
+func Deep(n int, api string, d int) p1.Result {
+	if n <= 0 {
+		return F4(api, d)
+	}
+	r := Deep(n-1, api, d)
+	return r
+}
